@@ -70,6 +70,12 @@ def handle (op : String) (args : List String) : Option String :=
         let chars := m.map fun b => Char.ofNat b.toNat
         let out := ErrText.pgError chars pos.toNat!
         pure ("ok " ++ hexOf (out.map fun c => UInt8.ofNat c.toNat))
+  | "pgsan", [raw, pos] => do
+      -- the rewriting code of ParseQuery on a given parser message (empty message: `-`)
+      let m ← ofHex raw
+      let chars := m.map fun b => Char.ofNat b.toNat
+      let out := ErrText.pgError chars pos.toNat!
+      pure ("ok " ++ hexOf (out.map fun c => UInt8.ofNat c.toNat))
   | "logsite", [level, msg] => do
       let m ← ofHex msg
       let text := String.mk (m.map fun b => Char.ofNat b.toNat)
